@@ -187,9 +187,15 @@ pub enum MockRes {
     U32(u32),
     Ioctl { result: i32, #[serde(with = "hexbytes")] data: Vec<u8> },
     Dirents(Vec<DirentSpec>),
+    /// the directory read hands over these entries and THEN fails (host getdents failing
+    /// mid-stream); if the reply area fills up first the call ends normally
+    DirentsThenErr(Vec<DirentSpec>, ErrSpec),
     /// FsOptions bits returned from init
     Init(u64),
 }
+
+/// marker in `dir_returns`: the directory read returned its scripted error after the entries
+pub const DIR_FAILED: i64 = -2;
 
 pub struct MockFs {
     pub res: MockRes,
@@ -639,7 +645,8 @@ impl FileSystem for MockFs {
         if let Some(e) = self.err() {
             return Err(e);
         }
-        if let MockRes::Dirents(list) = &self.res {
+        if let MockRes::Dirents(list) | MockRes::DirentsThenErr(list, _) = &self.res {
+            let mut full = false;
             for d in list {
                 let r = add_entry(DirEntry {
                     ino: d.ino,
@@ -650,6 +657,7 @@ impl FileSystem for MockFs {
                 match r {
                     Ok(0) => {
                         self.dir_returns.lock().unwrap().push(0);
+                        full = true;
                         break;
                     }
                     Ok(n) => self.dir_returns.lock().unwrap().push(n as i64),
@@ -658,6 +666,10 @@ impl FileSystem for MockFs {
                         return Err(e);
                     }
                 }
+            }
+            if let (MockRes::DirentsThenErr(_, e), false) = (&self.res, full) {
+                self.dir_returns.lock().unwrap().push(DIR_FAILED);
+                return Err(e.to_err());
             }
         }
         Ok(())
@@ -675,7 +687,8 @@ impl FileSystem for MockFs {
         if let Some(e) = self.err() {
             return Err(e);
         }
-        if let MockRes::Dirents(list) = &self.res {
+        if let MockRes::Dirents(list) | MockRes::DirentsThenErr(list, _) = &self.res {
+            let mut full = false;
             for d in list {
                 let r = add_entry(
                     DirEntry {
@@ -689,6 +702,7 @@ impl FileSystem for MockFs {
                 match r {
                     Ok(0) => {
                         self.dir_returns.lock().unwrap().push(0);
+                        full = true;
                         break;
                     }
                     Ok(n) => self.dir_returns.lock().unwrap().push(n as i64),
@@ -697,6 +711,10 @@ impl FileSystem for MockFs {
                         return Err(e);
                     }
                 }
+            }
+            if let (MockRes::DirentsThenErr(_, e), false) = (&self.res, full) {
+                self.dir_returns.lock().unwrap().push(DIR_FAILED);
+                return Err(e.to_err());
             }
         }
         Ok(())
